@@ -106,6 +106,14 @@ _p('C16',
    'registered structure; records are read with T_DTYPE x1 and self.dtype x nItems; nFields is a floor division by the record size and every record read is preceded by '
    'formatIndex (0 <= idx < nFields) or loops over range(nFields).',
    ['bit exactness of numpy file I/O', 'the crash-point quantifier (needs fault injection)', 'BlockDecomposition tiles the grid (integer arithmetic identity)'])
+_p('C17',
+   'ONLY clauses whose truth is in the shape of the code: (R1) every `for axis in axes` loop carries its result from axis to axis (a value used after the loop is never restarted from the untouched input '
+   'inside it) and the serial n-d path applies the 1-d transforms to the running array; (R2) forward/backward pairing: DCT-II and its inverse with the same default norm, multiply/divide by the same '
+   'normalisation (1/N, first coefficient halved), FFT forward unnormalised and inverse divided by the transformed lengths over the same axes; (R3) where the interval map enters: grid = fac*reference+offset, '
+   'derivatives / fac^p, ultraspherical integral * fac, wavenumbers * 2 pi / L; (R4) n-d operators are Kronecker products in axis order of the 1-d operator and identities, and the four n-d builders are '
+   'products of such expansions over the requested axes.',
+   ['that any operator matrix agrees with exact polynomial / Fourier calculus (differentiation, integration, conversion, boundary rows) for every N', 'mutual inverse of the basis conversions', 'agreement of sparse ultraspherical and dense Chebychev operators',
+    'padding / dealiasing paths and the mpi4py-fft path - numeric or not executable here: NOT decided by this check'])
 _p('C18',
    'In the periodic arm of get_finite_difference_matrix every diagonal is coeff[p]*eye(k=steps[p] (+-size)) with p ranging over positions; no loop variable bound by '
    '`for v in X` is used as subscript of X anywhere in the helper (positive control embedded); the two wrap diagonals have the right sign; coeff is permuted with '
